@@ -185,3 +185,40 @@ M('C03', 'prev-signer-not-updated', AUTH, '        previous_signer = signer.sign
 M('C03', 'validate-after-install', AUTH, '    validate_signers(env, new_signers)?;\n\n    update_rotation_timestamp(env, enforce_rotation_delay)?;', '    update_rotation_timestamp(env, enforce_rotation_delay)?;', 'C03.R1')
 M('C03', 'constructor-allows-empty', AUTH, '    ensure!(!initial_signers.is_empty(), ContractError::EmptySigners);\n', '', 'C03.R5')
 M('C03', 'constructor-ignores-failure', AUTH, '        rotate_signers(&env, &signers, false)?;', '        let _ = rotate_signers(&env, &signers, false);', None)
+
+# ---------------- C14 ----------------
+GASEV = 'contracts/axelar-gas-service/src/event.rs'
+M('C14', 'pay_gas-zero-amount-allowed', GAS, '        spender.require_auth();\n\n        ensure!(token.amount > 0, ContractError::InvalidAmount);\n\n        token::Client::new(&env, &token.address).transfer(\n            &spender,\n            &env.current_contract_address(),\n            &token.amount,\n        );\n\n        event::gas_paid(',
+  '        spender.require_auth();\n\n        token::Client::new(&env, &token.address).transfer(\n            &spender,\n            &env.current_contract_address(),\n            &token.amount,\n        );\n\n        event::gas_paid(', 'C14.R2')
+M('C14', 'add_gas-ge-zero', GAS, '        ensure!(token.amount > 0, ContractError::InvalidAmount);\n\n        token::Client::new(&env, &token.address).transfer(\n            &spender,\n            &env.current_contract_address(),\n            &token.amount,\n        );\n\n        event::gas_added',
+  '        ensure!(token.amount >= 0, ContractError::InvalidAmount);\n\n        token::Client::new(&env, &token.address).transfer(\n            &spender,\n            &env.current_contract_address(),\n            &token.amount,\n        );\n\n        event::gas_added', 'C14.R2')
+M('C14', 'collect-no-balance-check', GAS, '        ensure!(\n            contract_token_balance >= token.amount,\n            ContractError::InsufficientBalance\n        );\n', '        let _ = contract_token_balance;\n', 'C14.R2')
+M('C14', 'collect-balance-of-receiver', GAS, 'let contract_token_balance = token_client.balance(&env.current_contract_address());', 'let contract_token_balance = token_client.balance(&receiver);', 'C14.R2')
+M('C14', 'refund-to-collector', GAS, '            &env.current_contract_address(),\n            &receiver,\n            &token.amount,\n        );\n\n        event::refunded', '            &env.current_contract_address(),\n            &Self::gas_collector(&env),\n            &token.amount,\n        );\n\n        event::refunded', 'C14.R3')
+M('C14', 'refund-event-wrong-receiver', GAS, '        event::refunded(&env, message_id, receiver, token);', '        event::refunded(&env, message_id, Self::gas_collector(&env), token);', 'C14.R3')
+M('C14', 'pay_gas-no-event', GAS, '        event::gas_paid(\n            &env,\n            sender,\n            destination_chain,\n            destination_address,\n            payload,\n            spender,\n            token,\n            metadata,\n        );\n', '        let _ = (sender, destination_chain, destination_address, payload, metadata);\n', 'C14.R4')
+M('C14', 'gas_paid-event-drops-token', GASEV, '        env.crypto().keccak256(&payload),\n        spender,\n        token,\n    );', '        env.crypto().keccak256(&payload),\n        spender,\n        token.address,\n    );', 'C14.R3')
+M('C14', 'pay_gas-takes-double', GAS, '            &spender,\n            &env.current_contract_address(),\n            &token.amount,\n        );\n\n        event::gas_paid(', '            &spender,\n            &env.current_contract_address(),\n            &(token.amount * 2),\n        );\n\n        event::gas_paid(', 'C14.R3')
+M('C14', 'refund-by-owner', GAS, '        Self::gas_collector(&env).require_auth();\n\n        token::Client::new(&env, &token.address).transfer(\n            &env.current_contract_address(),', '        Self::owner(&env).require_auth();\n\n        token::Client::new(&env, &token.address).transfer(\n            &env.current_contract_address(),', 'C14.R1')
+
+# ---------------- C12 ----------------
+M('C12', 'expiry-one-ledger-early', TOK, '                    if allowance.expiration_ledger < env.ledger().sequence() {', '                    if allowance.expiration_ledger <= env.ledger().sequence() {', 'C12.R5')
+M('C12', 'expiry-ignored-on-read', TOK, '                    if allowance.expiration_ledger < env.ledger().sequence() {', '                    if false && allowance.expiration_ledger < env.ledger().sequence() {', 'C12.R5')
+M('C12', 'approve-accepts-expired', TOK, '            !(amount > 0 && expiration_ledger < env.ledger().sequence()),', '            !(amount > 0 && expiration_ledger + 1 < env.ledger().sequence()),', 'C12.R5')
+M('C12', 'approve-no-expiry-precondition', TOK, '        assert_with_error!(\n            env,\n            !(amount > 0 && expiration_ledger < env.ledger().sequence()),\n            ContractError::InvalidExpirationLedger\n        );\n', '', 'C12.R5')
+M('C12', 'negative-amount-transfer', TOK, '        from.require_auth();\n\n        Self::validate_amount(&env, amount);\n        Self::spend_balance(&env, from.clone(), amount);\n        Self::receive_balance(&env, to.clone(), amount);',
+  '        from.require_auth();\n\n        Self::spend_balance(&env, from.clone(), amount);\n        Self::receive_balance(&env, to.clone(), amount);', 'C12.R1')
+M('C12', 'validate-amount-strict', TOK, '        assert_with_error!(env, amount >= 0, ContractError::InvalidAmount);', '        assert_with_error!(env, amount > 0, ContractError::InvalidAmount);', 'C12.R1')
+M('C12', 'spend-balance-no-sufficiency', TOK, '        assert_with_error!(env, balance >= amount, ContractError::InsufficientBalance);\n', '', 'C12.R2')
+M('C12', 'credit-wrong-amount', TOK, '                balance.unwrap_or_default() + amount\n', '                balance.unwrap_or_default() + amount + 1\n', 'C12.R2')
+M('C12', 'transfer-credits-sender', TOK, '        Self::spend_balance(&env, from.clone(), amount);\n        Self::receive_balance(&env, to.clone(), amount);\n\n        extend_instance_ttl(&env);\n\n        TokenUtils::new(&env).events().transfer(from, to, amount);',
+  '        Self::spend_balance(&env, from.clone(), amount);\n        Self::receive_balance(&env, from.clone(), amount);\n\n        extend_instance_ttl(&env);\n\n        TokenUtils::new(&env).events().transfer(from, to, amount);', 'C12.R2')
+M('C12', 'burn_from-keeps-allowance', TOK, '        Self::validate_amount(&env, amount);\n        Self::spend_allowance(&env, from.clone(), spender, amount);\n        Self::spend_balance(&env, from.clone(), amount);\n\n        extend_instance_ttl(&env);\n\n        TokenUtils::new(&env).events().burn(from, amount)',
+  '        Self::validate_amount(&env, amount);\n        let a = Self::read_allowance(&env, from.clone(), spender);\n        assert_with_error!(&env, a.amount >= amount, ContractError::InsufficientAllowance);\n        Self::spend_balance(&env, from.clone(), amount);\n\n        extend_instance_ttl(&env);\n\n        TokenUtils::new(&env).events().burn(from, amount)', 'C12.R4')
+M('C12', 'spend-allowance-resets-expiry', TOK, '                    .expect("insufficient allowance"),\n                allowance.expiration_ledger,', '                    .expect("insufficient allowance"),\n                env.ledger().sequence() + 100,', 'C12.R4')
+M('C12', 'event-swapped-parties', TOK, '        TokenUtils::new(&env).events().transfer(from, to, amount);\n    }\n\n    fn transfer_from', '        TokenUtils::new(&env).events().transfer(to, from, amount);\n    }\n\n    fn transfer_from', 'C12.R6')
+M('C12', 'set_admin-new-owner-twice', TOK, '        TokenEvents::new(env).set_admin(previous_owner, new_owner);', '        TokenEvents::new(env).set_admin(Self::owner(env), new_owner);', 'C12.R6')
+M('C12', 'mint-no-event', TOK, '        TokenUtils::new(env).events().mint(minter, to, amount);\n', '        let _ = minter;\n', 'C12.R6')
+M('C12', 'debit-wrapping', TOK, '        Self::write_balance(env, addr, balance - amount);', '        Self::write_balance(env, addr, balance.wrapping_sub(amount));', 'C12.R2')
+M('C12', 'read-allowance-match-equiv', TOK, '                    if allowance.expiration_ledger < env.ledger().sequence() {\n                        AllowanceValue {\n                            amount: 0,\n                            expiration_ledger: allowance.expiration_ledger,\n                        }\n                    } else {\n                        allowance\n                    }',
+  '                    if env.ledger().sequence() <= allowance.expiration_ledger {\n                        allowance\n                    } else {\n                        AllowanceValue {\n                            amount: 0,\n                            expiration_ledger: allowance.expiration_ledger,\n                        }\n                    }', equiv=True)
